@@ -9,7 +9,7 @@ from common import Kernel, call_impl, coq_bool, coq_list, coq_nat, coq_Z, fl, fl
 ID = "C15"
 N_CASES = {"quick": 360, "thorough": 5000, "search": 3000}
 RULE = ("seeded streams: grid triangles (multiples of 1/2, power-of-two scale incl. a 30% share at 2^-30..2^-12 and 2^12..2^30 in "
-        "every tier, far offsets, exactly degenerate ones) for "
+        "every tier, far offsets, exactly degenerate ones, a 12% share as int64 arrays of whole numbers) for "
         "normals/areas/barycentric weights; exactly coplanar query points (dyadic combinations, many on edges and "
         "vertices) for containment and same-side; sample with draws supplied through a Generator subclass (dyadic "
         "weights with zero entries, u on exact thresholds incl. 0.0, coefficient sums = 1 and > 1), area weights, the "
